@@ -682,6 +682,11 @@ def rule_tile(ctx, rep, rid="R-C05-tile"):
     r.count_override = n
 
 
+def panics_int(b, op):
+    from rules import panics
+    return panics._int_const(b, op)
+
+
 def rule_linecol(ctx, rep, rid="R-C05-linecol"):
     """A token's (line, col) pair is only right if a new line restarts the column.  In lexer::tokenize: whenever `line` is advanced, `col`
     is re-based (assigned a value that does not depend on its old value) in the same iteration - before the line write (dominating it,
@@ -774,6 +779,26 @@ def rule_linecol(ctx, rep, rid="R-C05-linecol"):
         else:
             r.finding(inst + "|col-carried-over", loc_str(b.f, s[3]), "`line` advances but `col` keeps (or only adds to) its old value on some path to the next token: "
                       "tokens after a line break inside this token get a column shifted by the previous line's column")
+    # clause 4: columns count bytes - `col` is never advanced by a constant (text that is consumed as "one character" can be several bytes)
+    k = 0
+    for i, j, s in sorted(b.all_stmts(), key=lambda t: (t[2][3][0], t[2][3][1])):
+        if s[0] != "=" or s[2][0] != "bin" or not s[2][1].startswith("Add"):
+            continue
+        ops_ = [s[2][2], s[2][3]]
+        pls = [op_place(o) for o in ops_]
+        if not any(p_ is not None and not p_[1] and p_[0] == COL for p_ in pls):
+            continue
+        if not any(h in dom.get(i, set()) for h in heads):
+            continue
+        k += 1
+        other = [o for o, p_ in zip(ops_, pls) if not (p_ is not None and not p_[1] and p_[0] == COL)]
+        cv = panics_int(b, other[0]) if other else None
+        inst = "lexer::tokenize|col advance #%d" % k
+        if cv is not None:
+            r.finding(inst + "|by-constant", loc_str(b.f, s[3]), "`col` is advanced by the constant %d for a piece of consumed text: columns count bytes, so a multi-byte character "
+                      "(an invalid `\u00e4`, a no-break space) leaves every later token of the line with a column smaller than its span start" % cv)
+        else:
+            r.ok(inst, loc_str(b.f, s[3]), "advanced by a computed length")
     # clause 2: a reset to column 0 belongs to one line-break character/token: it sits on the Newline arm of the token match or
     # on the `== '\n'` branch of a per-character test (a reset decided by a count of lines forgets the rest of the token)
     from vlib.mir import switch_info
@@ -946,3 +971,6 @@ def run(ctx, rep):
     from rules import c05_blank, c05_joinorder
     c05_blank.run(ctx, rep)
     c05_joinorder.run(ctx, rep)
+    # a label's offsets are applied to the text the project holds now: the parse they come from must be of that text
+    from rules.c11 import rule_cache
+    rule_cache(ctx, rep, rid="R-C05-cache")
